@@ -16,10 +16,13 @@ type solverDef struct {
 }
 
 var solvers = []solverDef{
-	{"z3-5.1.0", func(t int) []string { return []string{"z3-new", "-in", "-smt2", "-T:" + itoa(t)} }},
-	{"z3-4.8.12", func(t int) []string { return []string{"/usr/bin/z3", "-in", "-smt2", "-T:" + itoa(t)} }},
+	// every solver process is capped at ~3 GB so that a diverging query cannot exhaust the machine
+	{"z3-5.1.0", func(t int) []string { return []string{"z3-new", "-in", "-smt2", "-T:" + itoa(t), "-memory:3000"} }},
+	{"z3-4.8.12", func(t int) []string {
+		return []string{"/usr/bin/z3", "-in", "-smt2", "-T:" + itoa(t), "-memory:3000"}
+	}},
 	{"cvc5-1.0", func(t int) []string {
-		return []string{"cvc5", "--lang=smt2", "--tlimit=" + itoa(t*1000), "--mbqi"}
+		return []string{"sh", "-c", "ulimit -v 3500000; exec cvc5 --lang=smt2 --tlimit=" + itoa(t*1000) + " --mbqi"}
 	}},
 }
 
@@ -66,13 +69,17 @@ func runSolver(ctx context.Context, sd solverDef, query string, timeoutS int) so
 	_ = cmd.Run()
 	ms := time.Since(start).Milliseconds()
 	text := out.String()
-	first := strings.TrimSpace(strings.SplitN(text, "\n", 2)[0])
 	st := "unknown"
-	switch first {
-	case "unsat":
-		st = "unsat"
-	case "sat":
-		st = "sat"
+	// the verdict is the first line that is exactly sat/unsat/unknown (warnings may precede it)
+	for _, line := range strings.Split(text, "\n") {
+		line = strings.TrimSpace(line)
+		if line == "unsat" || line == "sat" {
+			st = line
+			break
+		}
+		if line == "unknown" || strings.HasPrefix(line, "(error") {
+			break
+		}
 	}
 	return solveResult{st, sd.name, ms, text}
 }
